@@ -202,22 +202,32 @@ def worker(cfg):
 
 
 # ---------------------------------------------------------------- circuit family
+_FAM = {}
+
+
 def family(n_nodes, n_comp, max_reactive, max_sources, rng=None, sample=None):
-    out = []
+    """non-degenerate circuits of the given size; with sample: a seeded random subset (candidates are tested lazily)"""
+    key = (n_nodes, n_comp, max_reactive, max_sources, sample, rng.random() if rng else None)
+    raw = []
     nodes = cirlib.node_names(n_nodes)
     for edges in cirlib.multigraphs(n_nodes, n_comp):
         for ks in itertools.product(KINDS, repeat=n_comp):
             nr = sum(1 for k in ks if k in ('C', 'L')); ns = sum(1 for k in ks if k in ('Vdc', 'Idc'))
             if nr == 0 or nr > max_reactive or ns == 0 or ns > max_sources: continue
-            comps = []
-            for k, ((a, b), kind) in enumerate(zip(edges, ks)):
-                n1, n2 = (a, b) if k % 2 == 0 else (b, a)
-                comps.append((f'{cirlib.IDP[kind]}{k}', n1, n2, kind))
             for g in nodes:
-                cfg = {'components': comps, 'ground': g}
-                if nondegenerate(cfg): out.append(cfg)
-    if sample is not None and rng is not None and len(out) > sample:
-        out = rng.sample(out, sample)
+                raw.append((edges, ks, g))
+    if sample is not None and rng is not None:
+        rng.shuffle(raw)
+    out = []
+    for edges, ks, g in raw:
+        comps = []
+        for k, ((a, b), kind) in enumerate(zip(edges, ks)):
+            n1, n2 = (a, b) if k % 2 == 0 else (b, a)
+            comps.append((f'{cirlib.IDP[kind]}{k}', n1, n2, kind))
+        cfg = {'components': comps, 'ground': g}
+        if nondegenerate(cfg):
+            out.append(cfg)
+            if sample is not None and len(out) >= sample: break
     return out
 
 
@@ -233,16 +243,22 @@ def rename(cfg, rng):
     return {'components': comps, 'ground': nm2[cfg['ground']], 'ground_pos': rng.randrange(len(comps) + 1)}
 
 
+_CFG = {}
+
+
 def configs(what, tier, seed):
+    if (tier, seed) in _CFG:
+        return [dict(c, what=what) for c in _CFG[(tier, seed)]]
     rng = random.Random(seed)
     if tier == 'quick':
-        fam = family(2, 2, 1, 1) + family(3, 3, 2, 1, rng, 26) + family(3, 4, 2, 2, rng, 6)
+        fam = family(2, 2, 1, 1) + family(3, 3, 2, 2, rng, 160) + family(3, 4, 2, 2, rng, 100) + family(4, 4, 3, 1, rng, 30)
     else:
-        fam = family(2, 2, 1, 1) + family(2, 3, 2, 2) + family(3, 3, 2, 2, rng, 400) + family(3, 4, 2, 2, rng, 500) + family(4, 4, 3, 1, rng, 250) + family(4, 5, 3, 2, rng, 120)
+        fam = family(2, 2, 1, 1) + family(2, 3, 2, 2) + family(3, 3, 2, 2) + family(3, 4, 2, 2, rng, 4000) + family(4, 4, 3, 2, rng, 2000) + family(4, 5, 3, 2, rng, 1500) + family(5, 6, 3, 2, rng, 300)
     cfgs = [dict(c, what=what) for c in fam]
-    ren = [dict(rename(c, rng), what=what) for c in (fam if tier == 'thorough' else rng.sample(fam, min(14, len(fam))))]
-    lab = [dict(c, what=what, symlabels=True) for c in rng.sample(fam, min(len(fam), 4 if tier == 'quick' else 60)) if len(c['components']) <= 3]
+    ren = [dict(rename(c, rng), what=what) for c in (rng.sample(fam, min(3000, len(fam))) if tier == 'thorough' else rng.sample(fam, min(80, len(fam))))]
+    lab = [dict(c, what=what, symlabels=True) for c in rng.sample(fam, min(len(fam), 30 if tier == 'quick' else 400)) if len(c['components']) <= 3]
     twins = [dict(c, what=what, twin=True) for c in rng.sample(fam[:20], 3)]
+    _CFG[(tier, seed)] = cfgs + ren + lab + twins
     return cfgs + ren + lab + twins
 
 
@@ -268,7 +284,7 @@ def main_for(what, tier, extra_workers=None):
         assumptions=['exact field arithmetic (conditioning of the two inversions outside the claim)', 'np.linalg.inv(M) returns W with M W = W M = I (symmetric W for symmetric M)',
                      'degenerate circuits (C-V loops, L-I cutsets, pole at s = 0, ill-posed) are excluded by exact rational rank tests on the oracle side',
                      'ideal dc voltage / current sources as inputs'] + (['the integrator scipy.signal.lsim is NOT encoded: accuracy of the simulated trajectory, start from rest inside lsim and settling are outside the claim'] if what == 'C12' else []),
-        bounds={'circuits': 'all non-degenerate RLC + ideal-source circuits with 2 nodes / 2 components; seeded samples of 3 nodes / 3-4 components' + (', 2 nodes / 3, 4 nodes / 4-5 components (<= 3 reactive elements, <= 2 sources)' if tier == 'thorough' else ' (<= 2 reactive elements)'),
+        bounds={'circuits': 'all non-degenerate RLC + ideal-source circuits with 2 nodes / 2 components' + (', 2 nodes / 3 and 3 nodes / 3 components; seeded samples of 3 nodes / 4, 4 nodes / 4-5, 5 nodes / 6 components (<= 3 reactive elements, <= 2 sources)' if tier == 'thorough' else '; seeded samples of 3 nodes / 3-4 and 4 nodes / 4 components'),
                 'names / order': 'renamed + shuffled variants with names interleaving sources, inductors and passive elements; symbolic label order (all orders) for a subset', 'saturation depth': 2},
         trusted=['z3 QF_LRA', 'symx executor', 'oracle/tableau.py'])
 
